@@ -111,7 +111,19 @@ def gen_arr(v, n, fill):
     return np.array([fill if e is None else e for e in v], dtype=float)
 
 
-FORMS = ("x0_view", "bounds_view", "ret_list", "ret_samebuf", "ret_noncontig", "mutates_x", "keeps_x", "np_scalars")
+FORMS = ("x0_view", "bounds_view", "ret_list", "ret_samebuf", "ret_noncontig", "mutates_x", "keeps_x", "np_scalars", "extra_args")
+ARGSF = (2.5, "token-f")
+ARGSH = (("token-h", 7),)
+ARGSPROX = (-1.25, None)
+
+
+class ArgsNotPassedThrough(AssertionError):
+    pass
+
+
+def _expect_args(name, got, want):
+    if tuple(got) != tuple(want):
+        raise ArgsNotPassedThrough("%s received extra arguments %r instead of %r" % (name, got, want))
 
 
 def sample_forms(g, p=1.0):
@@ -254,6 +266,10 @@ def build(cfg, ctx):
     b.kept = []          # (reference to the array objfun was handed, copy taken at that moment) for the "keeps_x" form
     if forms & {"ret_list", "ret_samebuf", "ret_noncontig", "mutates_x", "keeps_x"}:
         f = FormedFun(f, forms, b.kept)
+    if "extra_args" in forms:
+        # the residual function, h and the prox each REQUIRE their extra arguments (argsf / argsh / argsprox), exactly as given
+        f0_ = f
+        f = lambda x, *a: (_expect_args("objfun", a, ARGSF), f0_(x))[1]
     b.objfun = f
     b.x0 = np.array(cfg["x0"], dtype=float)
     if "x0_view" in forms:
@@ -295,9 +311,16 @@ def build(cfg, ctx):
     if cfg.get("reg"):
         h, prox, lh = make_regulariser(cfg["reg"], n)
         b.h_raw = h
+        if "extra_args" in forms:
+            h_, prox_ = h, prox
+            h = lambda x, *a: (_expect_args("h", a, ARGSH), h_(x))[1]
+            prox = lambda x, u, *a: (_expect_args("prox_uh", a, ARGSPROX), prox_(x, u))[1]
+            kw["argsh"], kw["argsprox"] = ARGSH, ARGSPROX
         b.h = engine.RecordedCallable(h, "h", ctx, keep=False)
         b.prox = engine.RecordedCallable(prox, "prox", ctx, keep=False)
         kw["h"], kw["prox_uh"], kw["lh"] = b.h, b.prox, lh
+    if "extra_args" in forms:
+        kw["argsf"] = ARGSF
     b.kw = kw
     b.faults = {int(k): v for k, v in (cfg.get("faults") or {}).items()}
     b.persistent = tuple(cfg["persistent"]) if cfg.get("persistent") else None
